@@ -25,6 +25,16 @@ func fix4(b []byte) (what string, accepted bool) {
 		return "", false
 	}
 	accepted = true
+	if len(b)%2 == 1 {
+		// logged before it is forwarded, as server4's debug logger does
+		_ = p0.Summary()
+		_ = p0.String()
+		defer func() {
+			if what != "" {
+				what += " (the decoded packet was printed with Summary() and String() before it was re-encoded)"
+			}
+		}()
+	}
 	b1 := p0.ToBytes()
 	p1, err := dhcpv4.FromBytes(b1)
 	if err != nil {
